@@ -31,6 +31,8 @@ const (
 	OIDTimestamp   = 1114
 	OIDTimestamptz = 1184
 	OIDUUID        = 2950
+	OIDBit         = 1560
+	OIDVarbit      = 1562
 	OIDJSONB       = 3802
 	OIDInt4Array   = 1007
 	OIDTextArray   = 1009
@@ -54,8 +56,24 @@ func daysSince2000(t time.Time) int64 {
 
 // Canon renders a Go value of the type the harness uses for the OID as a
 // canonical string (the comparison domain of the oracle).
+// BitString is a bit / varbit value written as its digits ("0110").
+type BitString string
+
+func (b BitString) binary() []byte {
+	out := be32(uint32(len(b)))
+	oct := make([]byte, (len(b)+7)/8)
+	for i := range b {
+		if b[i] == '1' {
+			oct[i/8] |= 0x80 >> (i % 8)
+		}
+	}
+	return append(out, oct...)
+}
+
 func Canon(oid uint32, v any) string {
 	switch x := v.(type) {
+	case BitString:
+		return "bits:" + string(x)
 	case bool:
 		return fmt.Sprintf("b:%v", x)
 	case int16:
@@ -204,6 +222,19 @@ func decodeBinary(oid uint32, b []byte) (string, error) {
 		return fmt.Sprintf("t:%d", int64(binary.BigEndian.Uint64(b))), nil
 	case OIDInt4Array, OIDTextArray:
 		return decodeBinaryArray(oid, b)
+	case OIDBit, OIDVarbit:
+		if err := need4(b); err != nil {
+			return "", err
+		}
+		n := int(binary.BigEndian.Uint32(b))
+		if n < 0 || len(b)-4 != (n+7)/8 {
+			return "", fmt.Errorf("binary bit string: %d bits announced, %d octets", n, len(b)-4)
+		}
+		d := make([]byte, n)
+		for i := range d {
+			d[i] = '0' + b[4+i/8]>>(7-i%8)&1
+		}
+		return "bits:" + string(d), nil
 	}
 	return "", fmt.Errorf("no binary decoder for oid %d", oid)
 }
@@ -324,6 +355,11 @@ func decodeText(oid uint32, s string) (string, error) {
 		return fmt.Sprintf("t:%d", us), nil
 	case OIDInt4Array, OIDTextArray:
 		return decodeTextArray(oid, s)
+	case OIDBit, OIDVarbit:
+		if strings.Trim(s, "01") != "" {
+			return "", fmt.Errorf("text bit string %q", s)
+		}
+		return "bits:" + s, nil
 	}
 	return "", fmt.Errorf("no text decoder for oid %d", oid)
 }
@@ -495,6 +531,8 @@ func Encode(oid uint32, format int16, v any) []byte {
 
 func encodeBinary(oid uint32, v any) []byte {
 	switch x := v.(type) {
+	case BitString:
+		return x.binary()
 	case bool:
 		if x {
 			return []byte{1}
@@ -557,6 +595,8 @@ func encodeBinary(oid uint32, v any) []byte {
 
 func encodeText(oid uint32, v any) []byte {
 	switch x := v.(type) {
+	case BitString:
+		return []byte(x)
 	case bool:
 		if x {
 			return []byte("t")
@@ -612,4 +652,11 @@ func floatText(f float64, bits int) string {
 		return "-Infinity"
 	}
 	return strconv.FormatFloat(f, 'g', -1, bits)
+}
+
+func need4(b []byte) error {
+	if len(b) < 4 {
+		return fmt.Errorf("binary bit string of %d bytes", len(b))
+	}
+	return nil
 }
